@@ -443,11 +443,15 @@ func (p *Party) Pay(ch *client.Channel, a int, amount int64, final bool) error {
 }
 
 // Quiesce waits until the bus is drained and the ledger idle (bounded; returns false on watchdog).
-func (w *World) Quiesce() bool {
+func (w *World) Quiesce() bool { return w.QuiesceBusy(0) }
+
+// QuiesceBusy is Quiesce for callers that run inside a handler themselves: allowed is the number
+// of handler invocations that may be in flight.
+func (w *World) QuiesceBusy(allowed int64) bool {
 	deadline := time.Now().Add(20 * time.Second)
 	stable := 0
 	for {
-		if w.Bus.Drained() && w.Ledger.Idle() && atomic.LoadInt64(&w.Busy) == 0 {
+		if w.Bus.Drained() && w.Ledger.Idle() && atomic.LoadInt64(&w.Busy) <= allowed {
 			stable++
 			if stable >= 5 {
 				return true
